@@ -324,7 +324,7 @@ impl VarIntEncoder {
         let (count, count_bytes) = self.decode_leb128_u64(&data[offset..])?;
         offset += count_bytes;
         
-        let mut result = Vec::with_capacity(count as usize);
+        let mut result = Vec::with_capacity((count as usize).min(data.len()));
         
         // Read values
         for _ in 0..count {
@@ -343,7 +343,7 @@ impl VarIntEncoder {
         let (count, count_bytes) = self.decode_leb128_u64(&data[offset..])?;
         offset += count_bytes;
         
-        let mut result = Vec::with_capacity(count as usize);
+        let mut result = Vec::with_capacity((count as usize).min(data.len()));
         
         // Read values
         for _ in 0..count {
@@ -457,7 +457,7 @@ impl VarIntEncoder {
             return Ok(Vec::new());
         }
         
-        let mut result = Vec::with_capacity(count as usize);
+        let mut result = Vec::with_capacity((count as usize).min(data.len()));
         
         // Read first value
         let (first_value, first_bytes) = self.decode_leb128_u64(&data[offset..])?;
@@ -498,7 +498,7 @@ impl VarIntEncoder {
             return Ok(Vec::new());
         }
         
-        let mut result = Vec::with_capacity(count as usize);
+        let mut result = Vec::with_capacity((count as usize).min(data.len()));
         
         // Read first value
         let (first_value, first_bytes) = self.decode_leb128_i64(&data[offset..])?;
@@ -611,7 +611,7 @@ impl VarIntEncoder {
         let (count, count_bytes) = self.decode_leb128_u64(&data[offset..])?;
         offset += count_bytes;
         
-        let mut result = Vec::with_capacity(count as usize);
+        let mut result = Vec::with_capacity((count as usize).min(data.len()));
         let mut remaining = count;
         
         while remaining > 0 {
@@ -733,7 +733,7 @@ impl VarIntEncoder {
         let (count, count_bytes) = self.decode_leb128_u64(&data[offset..])?;
         offset += count_bytes;
         
-        let mut result = Vec::with_capacity(count as usize);
+        let mut result = Vec::with_capacity((count as usize).min(data.len()));
         
         // Read values
         for _ in 0..count {
@@ -752,7 +752,7 @@ impl VarIntEncoder {
         let (count, count_bytes) = self.decode_leb128_u64(&data[offset..])?;
         offset += count_bytes;
         
-        let mut result = Vec::with_capacity(count as usize);
+        let mut result = Vec::with_capacity((count as usize).min(data.len()));
         
         // Read values
         for _ in 0..count {
